@@ -659,8 +659,117 @@ impl Space for ProtectionFields {
     }
 }
 
+// ------------------------------------------------------------------------------------------------
+// (edit-loaded) the items a workbook was LOADED with are edited in place - the first one removed, the last one removed,
+// the list reversed, the first conditional-format rule restyled - and the workbook is saved again: tables that pair
+// items by position (differential formats, VML shapes, relationship ids) must follow
+const EL_KINDS: [&str; 5] = ["merges", "names-global", "comments", "validations", "cond-formats"];
+const EL_OPS: [&str; 4] = ["remove-first", "remove-last", "reverse", "restyle-first"];
+struct EditLoaded {
+    cases: Vec<(usize, usize, usize)>, // (kind, op, layout)
+}
+impl EditLoaded {
+    fn new() -> EditLoaded {
+        let mut cases = vec![];
+        for k in 0..EL_KINDS.len() {
+            for o in 0..EL_OPS.len() {
+                if EL_OPS[o] == "restyle-first" && EL_KINDS[k] != "cond-formats" {
+                    continue;
+                }
+                for l in 0..LAYOUTS.len() {
+                    cases.push((k, o, l));
+                }
+            }
+        }
+        EditLoaded { cases }
+    }
+}
+macro_rules! edit_list {
+    ($v:expr, $op:expr) => {{
+        let v = $v;
+        match $op {
+            "remove-first" => {
+                if !v.is_empty() {
+                    v.remove(0);
+                }
+            }
+            "remove-last" => {
+                v.pop();
+            }
+            "reverse" => v.reverse(),
+            _ => {}
+        }
+    }};
+}
+impl Space for EditLoaded {
+    fn len(&self) -> u64 {
+        self.cases.len() as u64
+    }
+    fn describe(&self, i: u64) -> Value {
+        let (k, o, l) = self.cases[i as usize];
+        json!({"kind": "edit-loaded", "loaded": format!("{}x3", EL_KINDS[k]), "edit": EL_OPS[o], "layout": LAYOUTS[l]})
+    }
+    fn tags(&self, i: u64) -> Vec<String> {
+        let (k, o, l) = self.cases[i as usize];
+        vec![format!("k:{}", EL_KINDS[k]), format!("edit-loaded:{}", EL_OPS[o]), format!("layout:{}", LAYOUTS[l])]
+    }
+    fn run(&self, i: u64, sink: &mut Sink) {
+        let (k, o, l) = self.cases[i as usize];
+        let tags = self.tags(i);
+        let case = self.describe(i);
+        let tg: Vec<&str> = tags.iter().map(|s| s.as_str()).collect();
+        let light = i % 2 == 1;
+        let kind = KINDS.iter().position(|x| x.0 == EL_KINDS[k]).unwrap();
+        let op = EL_OPS[o];
+        let r = std::panic::catch_unwind(|| -> Result<Spreadsheet, String> {
+            let b = build(&[(kind, 3)], l, 0);
+            let (_, mut b2) = roundtrip(&b, light)?;
+            let idx = if l == 2 { 2 } else { 0 };
+            let ws = b2.get_sheet_mut(&idx).unwrap();
+            match EL_KINDS[k] {
+                "merges" => edit_list!(ws.get_merge_cells_mut(), op),
+                "names-global" => edit_list!(ws.get_defined_names_mut(), op),
+                "comments" => edit_list!(ws.get_comments_mut(), op),
+                "validations" => {
+                    if let Some(d) = ws.get_data_validations_mut() {
+                        edit_list!(d.get_data_validation_list_mut(), op);
+                    }
+                }
+                _ => {
+                    let mut list: Vec<ConditionalFormatting> = ws.get_conditional_formatting_collection().to_vec();
+                    match op {
+                        "remove-first" => {
+                            list.remove(0);
+                        }
+                        "remove-last" => {
+                            list.pop();
+                        }
+                        "reverse" => list.reverse(),
+                        _ => {
+                            let mut st = Style::default();
+                            st.set_background_color("FFFFFF00");
+                            st.get_font_mut().set_bold(true);
+                            if let Some(rule) = list[0].get_conditional_collection_mut().first_mut() {
+                                rule.set_style(st);
+                            }
+                        }
+                    }
+                    ws.set_conditional_formatting_collection(list);
+                }
+            }
+            Ok(b2)
+        });
+        match r {
+            Err(e) => sink.violations.push(Violation::new("build", &format!("panic:{}", panic_class(&panic_msg(&e))), &tg, case, panic_msg(&e))),
+            Ok(Err(e)) => sink.violations.push(Violation::new("roundtrip-succeeds", &format!("failed:{}", panic_class(&e)), &tg, case, format!("first generation: {}", e))),
+            Ok(Ok(b2)) => check(&b2, light, &tags, &case, sink),
+        }
+    }
+}
+
 pub fn space(tier: Tier, id: &str) -> Option<Box<dyn Space>> {
     match id {
+        "edit-loaded" => Some(Box::new(EditLoaded::new())),
         "protection-fields" => Some(Box::new(ProtectionFields::new())),
         "add-after-load" => {
             let mut cases = vec![];
@@ -704,7 +813,7 @@ fn replay(tier: Tier, case: &Value) -> Vec<Violation> {
 }
 
 fn run(ctx: &Ctx) -> i32 {
-    let ids = ["kinds", "specials", "add-after-load", "protection-fields"];
+    let ids = ["kinds", "specials", "add-after-load", "protection-fields", "edit-loaded"];
     let spaces = ids.iter().map(|id| (*id, space(ctx.tier, id).unwrap())).collect();
     run_e1(
         ctx,
